@@ -1,12 +1,12 @@
 #!/bin/sh
-# usage: seed_try.sh <seed dir name, e.g. C01-e> [check id, default: the seed's property] [worktree root]
-# Applies /verif/seeded/<name>/patch.diff in a scratch worktree of /repo (never in /repo itself), runs the check with SA_REPO
-# pointing at it, and reverts.  The worktree <root>/<ID> must exist (git -C /repo worktree add --detach <root>/<ID> HEAD).
-name="$1"; pid="${2:-$(echo $1 | cut -d- -f1)}"; root="${3:-/tmp/wt3}"
-wt="$root/$(echo $name | cut -d- -f1)"
-cd "$wt" || exit 3
-git apply /verif/seeded/$name/patch.diff || exit 3
+# usage: seed_try.sh <seed dir name, e.g. C01-e> [check id, default: the seed's property]
+# Applies /verif/seeded/<name>/patch.diff in a fresh scratch worktree of /repo (never in /repo itself), runs the check with
+# SA_REPO pointing at it (SA_OUT away from /verif/evidence), prints findings and the exit status, removes the worktree.
+name="$1"; pid="${2:-$(echo $1 | cut -d- -f1)}"
+wt="/tmp/wt_try_$$"
+git -C /repo worktree add --detach "$wt" HEAD -q || exit 3
+( cd "$wt" && git apply /verif/seeded/$name/patch.diff ) || { git -C /repo worktree remove --force "$wt"; exit 3; }
 cd /verif
-SA_REPO="$wt" SA_OUT=/tmp/sa_seed_out /venv/bin/python -m sa.check $pid | grep "^FINDING\|^ANALYSIS-ERROR\|obligations" | cut -c1-${COLS:-330}
-SA_REPO="$wt" SA_OUT=/tmp/sa_seed_out /venv/bin/python -m sa.check $pid >/dev/null 2>&1; echo "exit=$?"
-cd "$wt" && git checkout -- menelaus
+SA_REPO="$wt" SA_OUT=/tmp/sa_try_out_$$ /venv/bin/python -m sa.check $pid | grep "^FINDING\|^ANALYSIS-ERROR\|obligations" | cut -c1-${COLS:-330}
+SA_REPO="$wt" SA_OUT=/tmp/sa_try_out_$$ /venv/bin/python -m sa.check $pid >/dev/null 2>&1; echo "exit=$?"
+git -C /repo worktree remove --force "$wt"; rm -rf /tmp/sa_try_out_$$
